@@ -301,7 +301,7 @@ func c09Reach(c *core.Case, ms *mesh, push bool) {
 
 func c09Case(c *core.Case, maxN int) {
 	t := genTopo(c, 2, maxN)
-	o := meshOpts{infoClass: c.Weighted("info", 3, 3, 4), spread: c.Bool("spread"), bigLabels: c.Bool("biglabels")}
+	o := meshOpts{infoClass: c.Weighted("info", 3, 3, 4, 4), spread: c.Bool("spread"), bigLabels: c.Bool("biglabels")}
 	ms := buildMesh(c, t, o)
 	c.Note("topology %s info=%d spread=%v biglabels=%v", t, o.infoClass, o.spread, o.bigLabels)
 	res := c09Flood(c, ms, 400_000, true)
